@@ -123,8 +123,13 @@ def fmt_inject(inject: tuple | None) -> str:
     return f"at loop iteration {inject[1]}"
 
 
-def situation(inj: dict | None) -> str:
+def situation(inj: dict | None, real: "Real | None" = None) -> str:
     """Where the external cancel landed (read from the harness at the moment of task.cancel())."""
+    if inj is not None and real is not None and inj.get("started") and not inj.get("shielded") and inj.get("scopes_cancel_called"):
+        # scopes of the whole run that ended with cancel_called(): two or more = the nested situation
+        ncancelled = sum(1 for t in real.tasks for e in t.events if e[0] == "exit" and e[2])
+        if ncancelled >= 2:
+            return "in-flight-scope-cancel/nested-cancelled-scopes"
     if inj is None:
         return "not-delivered"
     if not inj["started"]:
@@ -132,7 +137,10 @@ def situation(inj: dict | None) -> str:
     if inj["shielded"]:
         return "inside-shield"
     if inj["scopes_cancel_called"]:
-        return "in-flight-scope-cancel"
+        # (several cancelled scopes at once is a different situation from a single one: known_findings.json keys them apart)
+        n = inj["scopes_cancel_called"]
+        many = (len(n) if hasattr(n, "__len__") else int(n)) >= 2
+        return "in-flight-scope-cancel/nested-cancelled-scopes" if many else "in-flight-scope-cancel"
     return "no-scope-cancel-pending"
 
 
@@ -163,7 +171,7 @@ def judge(prog: tuple, inject: tuple | None, refs: RefSet | None, real: Real, mo
             if label != "R" and T is not None and T.abort_info is not None:
                 found.append((f"group-abort-cancel/{situation(T.abort_info)}/{sym}", text))  # the group's cancel of this child
             elif kind == "timed":
-                found.append((f"external-cancel/{situation(inj)}/timed/{sym}", text))
+                found.append((f"external-cancel/{situation(inj, real)}/timed/{sym}", text))
             else:
                 fam = "shield" if has_op(prog, ("shield", "syield")) else "plain"
                 if has_op(prog, ("group",)):
@@ -185,7 +193,7 @@ def judge(prog: tuple, inject: tuple | None, refs: RefSet | None, real: Real, mo
                 bad.append(f"(ii) unshielded checkpoint(s) completed after the external cancel: {[e[1] for e in completed]}")
             if bad:
                 tail = "" if any(e[0] == "exit" and e[2] for e in root.events) else "/no-scope-cancelled"
-                found.append(("external-cancel/" + situation(inj) + tail, "; ".join(bad) + f"; at injection: cancelling()={inj['cancelling_before']}, cancelled scopes {inj['scopes_cancel_called']}, "
+                found.append(("external-cancel/" + situation(inj, real) + tail, "; ".join(bad) + f"; at injection: cancelling()={inj['cancelling_before']}, cancelled scopes {inj['scopes_cancel_called']}, "
                               f"task.cancelling() at end={root.task.cancelling()}"))
             if not need and outcome != "cancelled":
                 return found, f"{kind}:{outcome}(no checkpoint left)"
